@@ -113,7 +113,8 @@ KNOWN_PREDICATES = {
 _san_budget = {}
 
 
-MODELLED = {'reshape': 'v_reshape', 'pipe_reshape_transpose': 'v_pipe_reshape_transpose'}
+MODELLED = {'reshape': 'v_reshape', 'pipe_reshape_transpose': 'v_pipe_reshape_transpose', 'broadcast_to': 'v_broadcast_to', 'add': 'v_add',
+            'pad': 'v_pad', 'tile': 'v_tile', 'roll': 'v_roll'}
 
 
 def both(req, oracle, tags, nontrivial=True, model=False, dom=True):
